@@ -24,12 +24,25 @@ DIFFS = ["name", "content", "content-none-vs-empty", "tail", "attr-add", "attr-d
 @st.composite
 def pair_case(draw):
     sp = draw(treegen.arb_spec(18))
+    if draw(st.booleans()):
+        # dictionary values may be None (a JSON null, or set through the API); a missing key is not a None value
+        for _, s in treegen.spec_nodes(sp):
+            for fld in ("a", "x"):
+                if s.get(fld) and draw(st.integers(0, 2)) == 0:
+                    k = sorted(s[fld])[0]
+                    s[fld][k] = None
     if draw(st.integers(0, 4)) == 0:
         return sp, None
     allp = list(treegen.spec_nodes(sp))
     path, _ = allp[draw(st.integers(0, len(allp) - 1))]
     kind = draw(st.sampled_from(DIFFS))
-    return sp, {"path": list(path), "kind": kind, "arg": draw(st.integers(0, 5))}
+    arg = draw(st.integers(0, 5))
+    if kind in ("extra-rekey", "attr-rekey") and draw(st.booleans()):
+        node = treegen.spec_at(sp, path)
+        fld = {"extra": "x", "attr": "a"}[kind.split("-")[0]]
+        if node.get(fld):
+            node[fld][sorted(node[fld])[arg % len(node[fld])]] = None
+    return sp, {"path": list(path), "kind": kind, "arg": arg}
 
 
 def apply_diff(sp, d):
@@ -60,7 +73,7 @@ def apply_diff(sp, d):
         if not node.get("a"):
             return None
         key = sorted(node["a"])[arg % len(node["a"])]
-        node["a"][key] = node["a"][key] + "~"
+        node["a"][key] = (node["a"][key] or "") + "~"
     elif k == "extra":
         node.setdefault("x", {})["p:zz"] = "1"
     elif k == "prefix":
@@ -71,7 +84,7 @@ def apply_diff(sp, d):
             return None
         key = sorted(node[fld])[arg % len(node[fld])]
         if k.endswith("change"):
-            node[fld][key] = node[fld][key] + ("~" if fld != "ns" else "/changed")
+            node[fld][key] = (node[fld][key] or "") + ("~" if fld != "ns" else "/changed")
         else:
             node[fld] = {(kk + "_" if kk == key else kk): vv for kk, vv in node[fld].items()}
     elif k == "ns":
